@@ -124,8 +124,9 @@ func (c *Curve) Add(p, q Pt) Pt {
 	return Pt{X: x3, Y: y3}
 }
 
-// Mul returns [k]p for k >= 0.
-func (c *Curve) Mul(k *big.Int, p Pt) Pt {
+// MulAffine returns [k]p for k >= 0 by double-and-add over the affine chord-and-tangent rule
+// (the reference the faster Jacobian ladder is checked against in SelfTest).
+func (c *Curve) MulAffine(k *big.Int, p Pt) Pt {
 	r := Inf()
 	for i := k.BitLen() - 1; i >= 0; i-- {
 		r = c.Add(r, r)
@@ -134,6 +135,89 @@ func (c *Curve) Mul(k *big.Int, p Pt) Pt {
 		}
 	}
 	return r
+}
+
+type jac struct{ x, y, z *big.Int } // z = 0 is the point at infinity
+
+func (c *Curve) mm(a, b *big.Int) *big.Int { return c.mod(new(big.Int).Mul(a, b)) }
+
+func (c *Curve) jdouble(p jac) jac {
+	if p.z.Sign() == 0 || p.y.Sign() == 0 {
+		return jac{big.NewInt(1), big.NewInt(1), big.NewInt(0)}
+	}
+	y2 := c.mm(p.y, p.y)
+	s := c.mm(big.NewInt(4), c.mm(p.x, y2))
+	z2 := c.mm(p.z, p.z)
+	m := c.mm(big.NewInt(3), c.mm(p.x, p.x))
+	m.Add(m, c.mm(c.A, c.mm(z2, z2)))
+	c.mod(m)
+	x3 := c.mm(m, m)
+	x3.Sub(x3, new(big.Int).Lsh(s, 1))
+	c.mod(x3)
+	y3 := new(big.Int).Sub(s, x3)
+	y3 = c.mm(m, c.mod(y3))
+	y3.Sub(y3, c.mm(big.NewInt(8), c.mm(y2, y2)))
+	c.mod(y3)
+	z3 := c.mm(big.NewInt(2), c.mm(p.y, p.z))
+	return jac{x3, y3, z3}
+}
+
+func (c *Curve) jadd(p, q jac) jac {
+	if p.z.Sign() == 0 {
+		return q
+	}
+	if q.z.Sign() == 0 {
+		return p
+	}
+	z1z1, z2z2 := c.mm(p.z, p.z), c.mm(q.z, q.z)
+	u1, u2 := c.mm(p.x, z2z2), c.mm(q.x, z1z1)
+	s1, s2 := c.mm(p.y, c.mm(q.z, z2z2)), c.mm(q.y, c.mm(p.z, z1z1))
+	if u1.Cmp(u2) == 0 {
+		if s1.Cmp(s2) != 0 {
+			return jac{big.NewInt(1), big.NewInt(1), big.NewInt(0)}
+		}
+		return c.jdouble(p)
+	}
+	h := c.mod(new(big.Int).Sub(u2, u1))
+	r := c.mod(new(big.Int).Sub(s2, s1))
+	h2 := c.mm(h, h)
+	h3 := c.mm(h2, h)
+	u1h2 := c.mm(u1, h2)
+	x3 := c.mm(r, r)
+	x3.Sub(x3, h3)
+	x3.Sub(x3, new(big.Int).Lsh(u1h2, 1))
+	c.mod(x3)
+	y3 := c.mm(r, c.mod(new(big.Int).Sub(u1h2, x3)))
+	y3.Sub(y3, c.mm(s1, h3))
+	c.mod(y3)
+	z3 := c.mm(h, c.mm(p.z, q.z))
+	return jac{x3, y3, z3}
+}
+
+func (c *Curve) toAffine(p jac) Pt {
+	if p.z.Sign() == 0 {
+		return Inf()
+	}
+	zi := new(big.Int).ModInverse(p.z, c.P)
+	zi2 := c.mm(zi, zi)
+	return Pt{X: c.mm(p.x, zi2), Y: c.mm(p.y, c.mm(zi2, zi))}
+}
+
+// Mul returns [k]p for k >= 0 (Jacobian double-and-add with explicit exceptional cases; checked
+// against MulAffine in SelfTest).
+func (c *Curve) Mul(k *big.Int, p Pt) Pt {
+	if p.Inf {
+		return Inf()
+	}
+	base := jac{new(big.Int).Set(p.X), new(big.Int).Set(p.Y), big.NewInt(1)}
+	r := jac{big.NewInt(1), big.NewInt(1), big.NewInt(0)}
+	for i := k.BitLen() - 1; i >= 0; i-- {
+		r = c.jdouble(r)
+		if k.Bit(i) == 1 {
+			r = c.jadd(r, base)
+		}
+	}
+	return c.toAffine(r)
 }
 
 // BaseMul returns [k]G.
@@ -199,6 +283,23 @@ func SelfTest() error {
 		}
 		if !c.P.ProbablyPrime(20) || !c.N.ProbablyPrime(20) {
 			return fmt.Errorf("weier: %s parameters not prime", c.Name)
+		}
+	}
+	// the Jacobian ladder agrees with affine double-and-add, including the exceptional scalars
+	rr := rand.New(rand.NewSource(3))
+	for _, c := range []*Curve{secp, p256} {
+		ks := []*big.Int{big.NewInt(0), big.NewInt(1), big.NewInt(2), big.NewInt(3), new(big.Int).Sub(c.N, big.NewInt(1)), new(big.Int).Set(c.N),
+			new(big.Int).Add(c.N, big.NewInt(1)), new(big.Int).Add(c.N, big.NewInt(2)), new(big.Int).Lsh(c.N, 1)}
+		for i := 0; i < 6; i++ {
+			b := make([]byte, 33)
+			rr.Read(b)
+			ks = append(ks, new(big.Int).SetBytes(b))
+		}
+		pt := c.MulAffine(big.NewInt(int64(5+rr.Intn(100))), c.G())
+		for _, k := range ks {
+			if !Equal(c.Mul(k, pt), c.MulAffine(k, pt)) || !Equal(c.Mul(k, c.G()), c.MulAffine(k, c.G())) {
+				return fmt.Errorf("weier: %s Jacobian ladder disagrees with affine double-and-add for k=%v", c.Name, k)
+			}
 		}
 	}
 	// secp256k1: 2G and 3G from the published test vectors
